@@ -27,7 +27,7 @@ func init() {
 		Run:  c04Budget})
 	register(&Rule{ID: "C04.follow", Floor: 2,
 		Text: "the walk returns a symbolic link as the found node only in no-follow mode (slmLstat), and after an absolute link target it restarts from a root selected as the starting root was: the view's root, or the root of the volume that the new path names (looked up again in the volumes map after the splice) - not from a fixed root, and not from the volume of the link when the target names another one",
-		Also: []string{"C17", "C11"},
+		Also: []string{"C17", "C11", "C01", "C14", "C05"},
 		Run:  c04Follow})
 	register(&Rule{ID: "C04.store", Floor: 2,
 		Text: "Symlink stores Clean(oldname) as the link target and Readlink returns exactly that stored field",
